@@ -401,6 +401,17 @@ func (pc *PConn) logMsg(dir int, op byte, msg []byte, fragOK bool) {
 	if !fragOK {
 		wf = false
 	}
+	if kind == "req" || kind == "notif" {
+		// harness methods carry their call token as first parameter
+		var f struct {
+			Params []json.RawMessage `json:"params"`
+		}
+		var tok float64
+		if json.Unmarshal(msg, &f) == nil && len(f.Params) >= 1 && json.Unmarshal(f.Params[0], &tok) == nil {
+			pc.p.rec.Emit("WireFrame", "conn", pc.ID, "dir", dirName[dir], "kind", kind, "id", id, "chid", chid, "wf", wf, "len", len(msg), "tok", int(tok))
+			return
+		}
+	}
 	pc.p.rec.Emit("WireFrame", "conn", pc.ID, "dir", dirName[dir], "kind", kind, "id", id, "chid", chid, "wf", wf, "len", len(msg))
 }
 
@@ -501,3 +512,53 @@ func classifyMsg(msg []byte) (kind string, id string, chid int, wf bool) {
 	}
 	return
 }
+
+// TCPProxy is a plain byte-level proxy (used for HTTP clients): it can kill every open connection on command.
+type TCPProxy struct {
+	ln     net.Listener
+	target string
+	mu     sync.Mutex
+	conns  []net.Conn
+	n      int
+}
+
+func NewTCPProxy(target string) (*TCPProxy, error) {
+	ln, err := net.Listen("tcp", "127.0.0.1:0")
+	if err != nil {
+		return nil, err
+	}
+	p := &TCPProxy{ln: ln, target: target}
+	go func() {
+		for {
+			c, err := ln.Accept()
+			if err != nil {
+				return
+			}
+			s, err := net.Dial("tcp", target)
+			if err != nil {
+				c.Close()
+				continue
+			}
+			p.mu.Lock()
+			p.conns = append(p.conns, c, s)
+			p.n++
+			p.mu.Unlock()
+			go func() { io.Copy(s, c); s.Close(); c.Close() }()
+			go func() { io.Copy(c, s); s.Close(); c.Close() }()
+		}
+	}()
+	return p, nil
+}
+
+func (p *TCPProxy) Addr() string  { return p.ln.Addr().String() }
+func (p *TCPProxy) Accepted() int { p.mu.Lock(); defer p.mu.Unlock(); return p.n }
+func (p *TCPProxy) KillAll() {
+	p.mu.Lock()
+	cs := p.conns
+	p.conns = nil
+	p.mu.Unlock()
+	for _, c := range cs {
+		c.Close()
+	}
+}
+func (p *TCPProxy) Close() { p.ln.Close(); p.KillAll() }
